@@ -498,6 +498,30 @@ func c13RunOp(tw *traceWriter, o c13Op) {
 			}
 			projs = append(projs, c13Proj(reflect.ValueOf(a2.Ticket.DecryptedEncPart)), c13Proj(reflect.ValueOf(a2.Authenticator)))
 			after, e3 = a2.Marshal()
+		case "apreq_verify":
+			// in between: the service's whole verification, with a keytab principal that overrides the ticket's server name
+			// (an alias: the key is found under another name); whatever Verify decides, the message stays what was received
+			var a, a2 messages.APReq
+			c13Build(reflect.ValueOf(&a).Elem(), o.V)
+			orig, e0 = a.Marshal()
+			if e0 != nil {
+				return
+			}
+			if e1 = a2.Unmarshal(orig); e1 != nil {
+				return
+			}
+			alias := types.PrincipalName{NameType: 1, NameString: []string{"svc-account"}}
+			kt := c13Keytab(alias, a2.Ticket.Realm, o.Parts[0].Kvno, c13Key(o.Parts[0]))
+			a2.Verify(kt, 5*time.Minute, types.HostAddress{}, &alias)
+			if len(a2.Ticket.DecryptedEncPart.Key.KeyValue) == 0 {
+				e2 = fmt.Errorf("Verify did not decrypt the ticket")
+				return
+			}
+			if e2 = a2.DecryptAuthenticator(a2.Ticket.DecryptedEncPart.Key); e2 != nil {
+				return
+			}
+			projs = append(projs, c13Proj(reflect.ValueOf(a2.Ticket.DecryptedEncPart)), c13Proj(reflect.ValueOf(a2.Authenticator)))
+			after, e3 = a2.Marshal()
 		case "krbpriv":
 			var k, k2 messages.KRBPriv
 			c13Build(reflect.ValueOf(&k).Elem(), o.V)
